@@ -6,6 +6,7 @@ import (
 	"bufio"
 	"bytes"
 	"encoding/json"
+	"fmt"
 	"os"
 	"path/filepath"
 	"sort"
@@ -66,6 +67,7 @@ type PermRes struct {
 	Locked  [][]int  `json:"locked"`
 	Garbage [][]int  `json:"garbage"` // GetGarbage(10000): bins [cnr, ids...]
 	Remain  [][2]int `json:"remain,omitempty"`
+	IterErrs int     `json:"itererrs"`
 	GCRun   bool     `json:"gcrun,omitempty"` // Remain = blobs left after the shard's GC passes
 }
 
@@ -206,8 +208,19 @@ func (e *env18) runPerm(c *C18Case, ord []int, gc bool) PermRes {
 		order[k] = addrOf(c.Blobs[ix])
 	}
 	e.es.e.Store(c.E)
-	err := e.mb.ResyncFromBlobstor(&permStorage{Storage: e.fst, order: order}, nil)
+	iterErrs := 0
+	err := e.mb.ResyncFromBlobstor(&permStorage{Storage: e.fst, order: order}, func(a oid.Address, err error) error {
+		iterErrs++
+		if os.Getenv("VERIF_DEBUG") != "" {
+			fmt.Fprintln(os.Stderr, "iteration error:", a, err)
+		}
+		return nil
+	})
+	if err != nil && os.Getenv("VERIF_DEBUG") != "" {
+		fmt.Fprintln(os.Stderr, "resync error:", err)
+	}
 	pr.OK = err == nil
+	pr.IterErrs = iterErrs
 	e.es.e.Store(c.Q)
 	e.observe(&pr)
 	if gc {
